@@ -101,7 +101,8 @@ impl Frame {
                 let len = get_integer(reader)?;
                 let len = len.try_into().map_err(|_| Error::BadEncoding)?;
                 // Recursively parse each element of the array
-                let mut items = Vec::with_capacity(len);
+                // the length is not trusted, every item takes at least one byte
+                let mut items = Vec::with_capacity(std::cmp::min(len, reader.remaining()));
                 for _ in 0..len {
                     items.push(Frame::parse(reader)?);
                 }
